@@ -572,6 +572,22 @@ pub fn actx() -> Vec<RV> {
     v
 }
 
+/// An atom in every syntactic position: alone in a list, list head, list tail element (directly
+/// before the closer), dotted tail, vector element. The list parsers scan some tokens themselves
+/// (a leading dot may be the pair separator), so a token can be read differently by position.
+pub fn in_positions(a: &RV) -> Vec<RV> {
+    let x = RV::sym("x");
+    vec![
+        RV::list(vec![a.clone()]),
+        RV::list(vec![a.clone(), x.clone()]),
+        RV::list(vec![x.clone(), a.clone()]),
+        RV::append(vec![x.clone()], a.clone()),
+        RV::Vector(vec![a.clone()]),
+        RV::Vector(vec![x.clone(), a.clone()]),
+        RV::list(vec![RV::list(vec![a.clone()]), a.clone()]),
+    ]
+}
+
 /// A12: 12-atom subset; A5: 5-atom subset.
 pub fn a12() -> Vec<RV> {
     vec![
